@@ -25,6 +25,7 @@ from engine import norm
 from engine.util import const_value, kwarg, enclosing_tests
 from engine.effects import Effects
 from .common import resolve_call
+from .sem import expander, ctext, want, bind, calls, paths, block_paths, split_ifexp, inline_helpers, complement_norm, truth_of, consistent, RAISE
 
 RULES = {
     "C18.a": "interval analysis: every accumulated term lies in [0, 1]; zero-initialised accumulator, one += per draw, division by the loop bound",
@@ -83,40 +84,118 @@ def interval(e: ast.AST, env: Dict[str, Iv]) -> Optional[Iv]:
     return None
 
 
+def _t(x) -> str:
+    return ast.unparse(x) if isinstance(x, ast.AST) else str(x)
+
+
+def _nest(fi: FunctionInfo):
+    """the (draw, row, column) loop nest: three nested For loops"""
+    for l1 in [x for x in own_nodes(fi.node) if isinstance(x, ast.For)]:
+        for l2 in [x for x in l1.body if isinstance(x, ast.For)]:
+            for l3 in [x for x in l2.body if isinstance(x, ast.For)]:
+                return l1, l2, l3
+    return None
+
+
+def _analyse(repo, fi: FunctionInfo):
+    """function-level paths (loops opaque) and, for each, the paths of the
+    innermost loop body evaluated in that path's environment"""
+    from engine.patheval import PathEval
+
+    nest = _nest(fi)
+    if nest is None:
+        raise AnalysisError("anchor vanished: the (draw, i, j) loop nest of non_linear_correlations")
+    l1, l2, l3 = nest
+    out = []
+    for minmax in (True, False):
+        top = [p for p in split_ifexp(paths(fi, {fi.named_params[3] if len(fi.named_params) > 3 else "minmax": minmax})) if p.ret != RAISE]
+        for p in top:
+            env = dict(p.env)
+            # the environment before the loops: evaluate the prefix only
+            pre = PathEval(fi.node, {fi.named_params[3]: ast.Constant(minmax)}, post=complement_norm)
+            body = [s for s in fi.node.body if s.lineno < l1.lineno]
+            pres = [q for q in pre.run(body) if set(q.conds) <= set(p.conds)]
+            for q in pres:
+                e2 = dict(q.env)
+                e2[fi.named_params[3]] = ast.Constant(minmax)
+                # bindings made by the enclosing loop bodies before the innermost loop
+                for blk, loop in ((l1.body, l2), (l2.body, l3)):
+                    pe = PathEval(fi.node, e2, post=complement_norm)
+                    r = pe.run([s for s in blk if s.lineno < loop.lineno])
+                    if r:
+                        e2 = dict(r[0].env)
+                inner = PathEval(fi.node, e2, post=complement_norm).run(l3.body)
+                out.append((minmax, p, q, e2, inner))
+    return nest, out
+
+
 def check_a(ck, repo):
     fi = repo.func(CM, "non_linear_correlations")
-    env: Dict[str, Iv] = {}
-    stmts = sorted((s for s in own_nodes(fi.node) if isinstance(s, ast.Assign) and len(s.targets) == 1 and isinstance(s.targets[0], ast.Name)), key=lambda s: s.lineno)
-    term = None
-    for s in stmts:
-        if s.targets[0].id in ("c", "co"):
-            iv = interval(s.value, env)
-            if iv is not None:
-                env[s.targets[0].id] = iv
-            if s.targets[0].id == "co":
-                term = (s, iv)
-    if term is None or term[1] is None:
-        ck.unknown("C18.a", fi, "co = max(c, 0) ** 0.5", "cannot bound the accumulated term")
-    else:
-        s, iv = term
-        ck.verdict(iv[0] >= 0.0 and iv[1] <= 1.0, "C18.a", fi, s, f"accumulated term co lies in [{iv[0]}, {iv[1]}] (var >= 0)", f"the accumulated term lies in [{iv[0]}, {iv[1]}], not within [0, 1]: entries of the matrix can leave [0, 1]")
-    cdef = [s for s in stmts if s.targets[0].id == "c"]
-    ck.verdict(len(cdef) == 1 and src_of(cdef[0].value) == "1 - numpy.var(v - xj_test.ravel())", "C18.a", fi, cdef[0] if cdef else "c = 1 - var(residual)", "c = 1 - variance of the residual on the test half", "c is not 1 - var(prediction - target) on the test half")
-    # accumulator: zero-init in both branches, += co once in each, divide by draws
-    inits = [src_of(s) for s in own_nodes(fi.node) if isinstance(s, ast.Assign) and src_of(s.targets[0]) in ("cor.iloc[:, :]", "cor[:, :]")]
-    ck.verdict(sorted(inits) == sorted(["cor.iloc[:, :] = 0.0", "cor[:, :] = 0.0"]), "C18.a", fi, f"{inits}", "accumulator zero-initialised (frame and array)", "the accumulator does not start from zero in both branches")
-    adds = [s for s in own_nodes(fi.node) if isinstance(s, ast.AugAssign) and src_of(s.target) in ("cor.iloc[i, j]", "cor[i, j]")]
-    ok = len(adds) == 2 and all(isinstance(s.op, ast.Add) and src_of(s.value) == "co" for s in adds)
-    ck.verdict(ok, "C18.a", fi, f"{[src_of(s) for s in adds]}", "cell (i, j) receives += co once per draw in each branch", "the cell update is not `+= co` exactly once per branch")
-    loops = [l for l in own_nodes(fi.node) if isinstance(l, ast.For) and src_of(l.target) == "k"]
-    rets = sorted(src_of(r.value) for r in own_nodes(fi.node) if isinstance(r, ast.Return))
-    ck.verdict(len(loops) == 1 and src_of(loops[0].iter) in ("range(0, draws)", "range(draws)") and rets == sorted(["(cor / draws, mini, maxi)", "cor / draws"]), "C18.a", fi, f"loop {src_of(loops[0].iter) if loops else None}; returns {rets}", "sum of `draws` terms divided by `draws`: the mean stays in [0, 1] and between min and max", "the accumulator is not divided by the number of draws that were added")
-    for s in adds:
-        inner = [p for p in _parents(s) if isinstance(p, ast.For)]
-        ck.verdict([src_of(p.target) for p in inner] == ["j", "i", "k"], "C18.a", fi, s, "update sits in the (draw, i, j) loop nest", "the cell update is not executed once per (draw, i, j)")
-    # same split for every coefficient; scaled data
-    st = [src_of(s) for s in own_nodes(fi.node) if isinstance(s, ast.Assign)]
-    ck.verdict("df = scale(df)" in st and "df_train, df_test = train_test_split(df, test_size=0.5)" in st, "C18.a", fi, "df = scale(df); train/test split per draw", "unit-variance columns (so 1 - var(residual) <= 1 is a share of variance)", "data are not standardised / split as assumed by the [0, 1] argument")
+    nest, runs = _analyse(repo, fi)
+    l1, l2, l3 = nest
+    df, model, draws = fi.named_params[0], fi.named_params[1], fi.named_params[2]
+    kv, iv, jv = [src_of(l.target) for l in nest]
+    ex = expander(repo)
+    # the loop nest: draws x rows x columns of the result container
+    with ex.lenient():
+        its = [ex.text(l.iter, fi, l) for l in nest]
+    ck.verdict(its[0] in (f"range(0, {draws})", f"range({draws})") and its[1] in ("range(cor.shape[0])", "range(0, cor.shape[0])") and its[2] in ("range(cor.shape[1])", "range(0, cor.shape[1])") or (its[0] in (f"range(0, {draws})", f"range({draws})") and its[1].endswith(".shape[0])") and its[2].endswith(".shape[1])")), "C18.a", fi, f"loop nest {its}", "one update per (draw, row, column) of the result matrix", f"the loop nest is {its}: the cell update is not executed once per (draw, i, j)")
+    seen_terms = set()
+    for minmax, top, pre, env, inner in runs:
+        cor = _t(env.get("cor")) if "cor" in env else None
+        label = f"[minmax={minmax}, {' and '.join(t if pol else 'not ' + t for t, pol in pre.conds) or 'always'}]"
+        # zero-initialised accumulator
+        z = [(k, _t(v)) for k, v in pre.named_stores.items() if k.replace(".iloc", "") == "cor[:, :]"]
+        ck.verdict(len(z) == 1 and z[0][1] in ("0.0", "0"), "C18.a", fi, f"{label} accumulator {cor} zero-filled: {z}", "accumulator zero-initialised", "the accumulator does not start from zero")
+        normal = [p for p in inner if p.ret is None]
+        if not normal:
+            ck.unknown("C18.a", fi, f"{label} cell update", "no path through the innermost loop body")
+            continue
+        for p in normal:
+            cell = [(k, v) for k, v in p.named_stores.items() if k.replace(".iloc", "") == f"cor[{iv}, {jv}]"]
+            if len(cell) != 1 or not (isinstance(cell[0][1], ast.BinOp) and isinstance(cell[0][1].op, ast.Add) and _t(cell[0][1].left).replace(".iloc", "") == f"{cor}[{iv}, {jv}]"):
+                ck.violated("C18.a", fi, f"{label} cell update {[(k, _t(v)[:40]) for k, v in cell]}", "the cell update is not `cell += term` exactly once per (draw, i, j)")
+                continue
+            term = inline_helpers(repo, fi, cell[0][1].right)
+            tt = _t(term)
+            if tt in seen_terms:
+                continue
+            seen_terms.add(tt)
+            ivl = interval(term, {})
+            if ivl is None:
+                ck.unknown("C18.a", fi, f"accumulated term {tt[:80]}", "cannot bound the accumulated term")
+            else:
+                ck.verdict(ivl[0] >= 0.0 and ivl[1] <= 1.0, "C18.a", fi, f"accumulated term {tt[:90]}", f"accumulated term lies in [{ivl[0]}, {ivl[1]}] (var >= 0)", f"the accumulated term {tt[:90]} lies in [{ivl[0]}, {ivl[1]}], not within [0, 1]: entries of the matrix can leave [0, 1]")
+            # the residual: prediction of column j from column i on the test half minus the test target
+            var = [c for c in ast.walk(term) if isinstance(c, ast.Call) and _t(c.func) == "numpy.var"]
+            okr = False
+            if len(var) == 1 and var[0].args and isinstance(var[0].args[0], ast.BinOp) and isinstance(var[0].args[0].op, ast.Sub):
+                a, b = var[0].args[0].left, var[0].args[0].right
+                S = f"train_test_split(scale({df}), test_size=0.5)"
+                I, J = iv, jv
+                okr = _t(a) == f"clone({model}).predict({S}[1][:, {I}:{I} + 1])" and _t(b) == f"{S}[1][:, {J}:{J} + 1].ravel()"
+                # trained on the train half: a fit call clone(model).fit(train_i, train_j.ravel()) in the cell's body
+                allcalls = list(p.calls)
+                rr = cell[0][1].right
+                if isinstance(rr, ast.Call):
+                    callee = resolve_call(repo, fi, rr)
+                    if callee is not None:
+                        for q in paths(callee, bind(rr, callee.named_params)):
+                            allcalls += q.calls
+                fits = [_t(c) for c in allcalls if isinstance(c.func, ast.Attribute) and c.func.attr == "fit"]
+                okr = okr and fits == [f"clone({model}).fit({S}[0][:, {I}:{I} + 1], {S}[0][:, {J}:{J} + 1].ravel())"]
+                n_clone = sum(1 for c in allcalls if _t(c) == f"clone({model})")
+                ck.verdict(n_clone >= 1, "C18.b", fi, f"clone({model}) in the cell body", "a fresh clone per cell: the caller's model is untouched and no fit carries over to another cell", f"the model is not cloned once per cell: the caller's model is fitted in place, or a model that keeps state between fits (warm_start) carries the fit for another target into this cell")
+            ck.verdict(okr, "C18.a", fi, f"term residual: {tt[:100]}", "c = 1 - variance of (prediction of column j from column i - column j) on the test half, model trained on the train half of the same split of the standardised data", "the term is not 1 - var(prediction - target) with the model trained on (x_i train, x_j train) and evaluated on x_i test of the same split")
+        # mean over the draws
+        r = top.ret
+        first = r.elts[0] if isinstance(r, ast.Tuple) and r.elts else r
+        okm = isinstance(first, ast.BinOp) and isinstance(first.op, ast.Div) and _t(first.right) == draws and _t(first.left) == cor
+        if minmax:
+            okm = okm and isinstance(r, ast.Tuple) and len(r.elts) == 3
+        else:
+            okm = okm and not isinstance(r, ast.Tuple)
+        ck.verdict(okm, "C18.a", fi, f"{label} returns {_t(r)[:60]}", "sum of `draws` terms divided by `draws`: the mean stays in [0, 1] and between min and max", "the accumulator is not divided by the number of draws that were added")
 
 
 def _parents(n):
@@ -126,59 +205,60 @@ def _parents(n):
         p = getattr(p, "_parent", None)
 
 
-class _EraseIloc(ast.NodeTransformer):
-    def visit_Attribute(self, node):
-        self.generic_visit(node)
-        if node.attr == "iloc":
-            return node.value
-        return node
-
-
 def check_b(ck, repo):
     fi = repo.func(CM, "non_linear_correlations")
-    br = [s for s in own_nodes(fi.node) if isinstance(s, ast.If) and src_of(s.test) == "iloc"]
-    if len(br) != 1:
-        ck.unknown("C18.b", fi, "if iloc:", "frame/array branch not found")
+    nest, runs = _analyse(repo, fi)
+    l1, l2, l3 = nest
+    df = fi.named_params[0]
+    kv, iv, jv = [src_of(l.target) for l in nest]
+    K, I, J = kv, iv, jv
+    by_kind = {}
+    for minmax, top, pre, env, inner in runs:
+        if not minmax:
+            continue
+        cor = _t(env.get("cor")) if "cor" in env else None
+        mini, maxi = _t(env.get("mini", "")), _t(env.get("maxi", ""))
+        ck.verdict(mini == maxi == f"{cor}.copy()", "C18.b", fi, f"mini/maxi = {mini[:40]}", "min and max matrices are separate copies of the zeroed container", "mini/maxi are not separate copies of the result container")
+        frame = (f"hasattr({df}, 'iloc')", True) in pre.conds
+        sig = []
+        for p in [p for p in inner if p.ret is None]:
+            first = None
+            for t, pol in p.conds:
+                if t in (f"{K} == 0", f"0 == {K}"):
+                    first = pol
+            st = {k.replace(".iloc", ""): v for k, v in p.named_stores.items()}
+            cell = f"[{I}, {J}]"
+            acc = st.get(f"cor{cell}")
+            tm = _t(acc.right) if isinstance(acc, ast.BinOp) else None
+            mn, mx = st.get(f"mini{cell}"), st.get(f"maxi{cell}")
+            mcur, xcur = f"{mini}{cell}", f"{maxi}{cell}"
+            if tm is None or mn is None or mx is None:
+                ok = False
+            elif first is True:
+                ok = _t(mn) == tm and _t(mx) == tm
+            elif first is False:
+                ok = _t(mn).replace(".iloc", "") in (f"min({mcur}, {tm})", f"min({tm}, {mcur})") and _t(mx).replace(".iloc", "") in (f"max({xcur}, {tm})", f"max({tm}, {xcur})")
+            else:
+                ok = False
+            sig.append((first, ok, tuple(sorted((k, _t(v).replace(".iloc", "").replace(cor or "?", "COR")) for k, v in st.items()))))
+        ck.verdict(bool(sig) and all(ok for _, ok, _ in sig) and {f for f, _, _ in sig} == {True, False}, "C18.b", fi, f"min/max bookkeeping ({'frame' if frame else 'array'})", "min and max start at the first draw's term and are updated with min/max of the same term", "min/max bookkeeping changed: min <= mean <= max can fail (not initialised at the first draw, or not updated with min/max of the accumulated term)")
+        by_kind[frame] = sorted(s_[2] for s_ in sig)
+    if set(by_kind) == {True, False}:
+        ck.verdict(by_kind[True] == by_kind[False], "C18.b", fi, "frame vs array updates", "DataFrame and ndarray updates are the same modulo .iloc", "the DataFrame branch and the ndarray branch of the cell update differ: a frame and its array give different matrices under the same seed")
+        cf = {}
+        for minmax, top, pre, env, inner in runs:
+            cf[(f"hasattr({df}, 'iloc')", True) in pre.conds] = _t(env.get("cor", ""))
+        ck.verdict(cf.get(True) == f"{df}.corr()" and cf.get(False) == f"numpy.corrcoef({df}, rowvar=False)", "C18.b", fi, f"containers {cf}", "square matrix with one row/column per variable (labels kept for frames)", "the result container is not a square per-variable matrix in both branches")
     else:
-        a = ast.Module(body=clone_ast(br[0].body), type_ignores=[])
-        b = ast.Module(body=clone_ast(br[0].orelse), type_ignores=[])
-        a = _EraseIloc().visit(a)
-        ck.verdict(norm.dump(a, rename=False) == norm.dump(b, rename=False), "C18.b", fi, "if iloc: ... else: ...", "DataFrame and ndarray updates are the same code modulo .iloc", "the DataFrame branch and the ndarray branch of the cell update differ: a frame and its array give different matrices under the same seed")
-        # min/max bookkeeping in the array branch (the frame branch is isomorphic)
-        t = [src_of(s) for s in ast.walk(b) if isinstance(s, ast.Assign)]
-        ok = t == ["mini[i, j] = co", "maxi[i, j] = co", "mini[i, j] = min(mini[i, j], co)", "maxi[i, j] = max(maxi[i, j], co)"]
-        ck.verdict(ok, "C18.b", fi, " ; ".join(t), "min and max start at the first draw's co and are updated with min/max of co", f"min/max bookkeeping is {t}: min <= mean <= max can fail")
-        first = [s for s in ast.walk(b) if isinstance(s, ast.If) and src_of(s.test) == "k == 0"]
-        ck.verdict(len(first) == 1, "C18.b", fi, "if k == 0", "initialisation happens at the first draw", "min/max are not initialised at the first draw")
-    # set-up branches isomorphic too
-    setup = [s for s in own_nodes(fi.node) if isinstance(s, ast.If) and src_of(s.test) == "hasattr(df, 'iloc')"]
-    if len(setup) == 1:
-        a = [src_of(s) for s in setup[0].body if isinstance(s, ast.Assign)]
-        b = [src_of(s) for s in setup[0].orelse if isinstance(s, ast.Assign)]
-        ck.verdict(a == ["cor = df.corr()", "cor.iloc[:, :] = 0.0", "iloc = True"] and b == ["cor = numpy.corrcoef(df, rowvar=False)", "cor[:, :] = 0.0", "iloc = False"], "C18.b", fi, f"{a} / {b}", "square matrix with one row/column per variable (labels kept for frames)", "the result container is not a square per-variable matrix in both branches")
-        mm_a = [src_of(s) for s in ast.walk(ast.Module(body=setup[0].body, type_ignores=[])) if isinstance(s, ast.Assign) and src_of(s.targets[0]) in ("mini", "maxi")]
-        mm_b = [src_of(s) for s in ast.walk(ast.Module(body=setup[0].orelse, type_ignores=[])) if isinstance(s, ast.Assign) and src_of(s.targets[0]) in ("mini", "maxi")]
-        ck.verdict(mm_a == mm_b == ["mini = cor.copy()", "maxi = cor.copy()"], "C18.b", fi, f"{mm_a}", "min and max matrices are separate copies", "mini/maxi are not separate copies of the result container")
+        ck.unknown("C18.b", fi, "frame / array", f"branches found: {sorted(by_kind)}")
     # input never written
     eff = Effects(repo, resolve_call)
     eff.solve()
     sites, _ = eff.writes_in(fi)
-    w = [x for x in sites if "df" in x.roots]
+    w = [x for x in sites if df in x.roots]
     ck.verdict(not w, "C18.b", fi, w[0].node if w else "non_linear_correlations(df)", "no in-place write reaches the caller's table", f"the caller's table may be written in place ({w[0].how if w else ''})")
     sc = [c for c in own_nodes_incl_lambda(fi.node) if isinstance(c, ast.Call) and src_of(c.func) == "scale"]
     ck.verdict(len(sc) == 1 and (kwarg(sc[0], "copy") is None or src_of(kwarg(sc[0], "copy")) == "True"), "C18.b", fi, sc[0] if sc else "scale(df)", "scale copies by default", "scale is asked to work in place on the caller's data")
-    # the model is cloned for every cell
-    cl = [s for s in own_nodes(fi.node) if isinstance(s, ast.Assign) and src_of(s.targets[0]) == "mod"]
-    ck.verdict(len(cl) == 1 and src_of(cl[0].value) == "clone(model)", "C18.b", fi, cl[0] if cl else "mod = clone(model)", "a fresh clone per cell: the caller's model is untouched", "the caller's model is fitted in place")
-    if cl:
-        loops_cl = [src_of(p_.target) for p_ in _parents(cl[0]) if isinstance(p_, ast.For)]
-        ck.verdict(loops_cl[:1] == ["j"], "C18.b", fi, f"clone inside loops {loops_cl}", "one fresh clone per cell (i, j)", f"the model is cloned once per {loops_cl[:1] or 'call'}, not once per cell: a model that keeps state between fits (warm_start) carries the fit for another target into this cell")
-    fit = [c for c in own_nodes_incl_lambda(fi.node) if isinstance(c, ast.Call) and src_of(c.func) == "mod.fit"]
-    pr = [s for s in own_nodes(fi.node) if isinstance(s, ast.Assign) and src_of(s.targets[0]) == "v"]
-    ck.verdict(len(fit) == 1 and [src_of(a) for a in fit[0].args] == ["xi_train", "xj_train.ravel()"] and len(pr) == 1 and src_of(pr[0].value) == "mod.predict(xi_test)", "C18.b", fi, "mod.fit(xi_train, xj_train); v = mod.predict(xi_test)", "column j is predicted from column i: trained on the train half, scored on the test half", "the model is not trained on (x_i train, x_j train) and evaluated on x_i test")
-    for nm, want in (("xi_train", "df_train[:, i:i + 1]"), ("xi_test", "df_test[:, i:i + 1]"), ("xj_train", "df_train[:, j:j + 1]"), ("xj_test", "df_test[:, j:j + 1]")):
-        d = [s for s in own_nodes(fi.node) if isinstance(s, ast.Assign) and src_of(s.targets[0]) == nm]
-        ck.verdict(len(d) == 1 and src_of(d[0].value) == want, "C18.b", fi, d[0] if d else f"{nm} = {want}", f"{nm} is column {nm[1]} of the {nm.split('_')[1]} half", f"{nm} is not {want}")
 
 
 def check_c(ck, repo):
@@ -192,14 +272,41 @@ def check_c(ck, repo):
         tab = {const_value(k): src_of(v) for k, v in zip(kf[0].value.keys, kf[0].value.values)}
         ck.verdict(tab == {"exp": "numpy.exp", "log": "numpy.log"}, "C18.c", None, f"_known_functions = {tab}", "'exp' and 'log' denote the NumPy functions", f"the name table is {tab}: 'log'/'exp' do not denote numpy.log/numpy.exp", file=mi.relpath, function="-", line=kf[0].lineno)
     cm = repo.func(SM, "comparable_metric")
-    st = [src_of(s) for s in own_nodes(cm.node) if isinstance(s, ast.Assign)]
-    ck.verdict("tr = _known_functions.get(tr, tr)" in st and "inv_tr = _known_functions.get(inv_tr, inv_tr)" in st, "C18.c", cm, "tr = _known_functions.get(tr, tr); inv_tr = ...get(inv_tr, inv_tr)", "each name is resolved into its own variable", "names are not resolved as tr -> tr and inv_tr -> inv_tr")
-    rets = [r for r in sorted((x for x in own_nodes(cm.node) if isinstance(x, ast.Return)), key=lambda x: x.lineno)]
-    got = [(([src_of(t) + ("" if pol else " [else]") for t, pol in enclosing_tests(r, cm.node)] or ["<always>"])[0], src_of(r.value)) for r in rets]
-    want = [("tr is None", "metric_function(y_true, inv_tr(y_pred), **kwargs)"), ("inv_tr is None", "metric_function(tr(y_true), y_pred, **kwargs)"), ("<always>", "metric_function(tr(y_true), inv_tr(y_pred), **kwargs)")]
-    ck.verdict(got == want, "C18.c", cm, f"{got}", "tr is applied to y_true and inv_tr to y_pred in every branch", f"return branches are {got}: a transformation is applied to the wrong argument or skipped")
-    raises = [s for s in own_nodes(cm.node) if isinstance(s, ast.If) and src_of(s.test) == "tr is None and inv_tr is None" and isinstance(s.body[0], ast.Raise)]
-    ck.verdict(len(raises) == 1 and all(raises[0].lineno < r.lineno for r in rets), "C18.c", cm, "if tr is None and inv_tr is None: raise", "the call is refused when both are missing, before anything is computed", "the both-None case is not refused before the metric is computed")
+    from engine.patheval import PathEval
+
+    mf, yt, yp, ptr, pinv = cm.named_params[:5]
+    pe = PathEval(cm.node, {}, post=lambda x: complement_norm(inline_helpers(repo, cm, x)))
+    ps = [p for p in split_ifexp(pe.run()) if consistent(p.conds)]
+    T, V = f"_known_functions.get({ptr}, {ptr})", f"_known_functions.get({pinv}, {pinv})"
+    kw = cm.node.args.kwarg.arg if cm.node.args.kwarg else "kwargs"
+    table = {
+        (True, False): f"{mf}({yt}, {V}({yp}), **{kw})",
+        (False, True): f"{mf}({T}({yt}), {yp}, **{kw})",
+        (False, False): f"{mf}({T}({yt}), {V}({yp}), **{kw})",
+    }
+    seen = {}
+    bad = []
+    both_none_ok = True
+    for p in ps:
+        tn, vn = truth_of(p.conds, f"{T} is None"), truth_of(p.conds, f"{V} is None")
+        if p.ret == RAISE:
+            continue
+        if tn is None or vn is None:
+            # a path on which a missing transformation has not been told apart
+            bad.append((sorted(p.conds), p.ret_text()))
+            continue
+        if tn and vn:
+            both_none_ok = False
+            continue
+        rt = p.ret_text()
+        seen[(tn, vn)] = rt
+        if rt != table[(tn, vn)]:
+            bad.append(((tn, vn), rt))
+    for p in ps:
+        if truth_of(p.conds, f"{T} is None") is True and truth_of(p.conds, f"{V} is None") is True and any(isinstance(c, ast.Call) and ast.unparse(c.func) == mf for c in p.calls):
+            both_none_ok = False
+    ck.verdict(not bad and set(seen) == set(table), "C18.c", cm, f"{sorted(seen.items())}", "names resolved through the table; tr is applied to y_true and inv_tr to y_pred in every case, a missing one means identity", f"return values are {sorted(seen.items())} {bad}: a transformation is applied to the wrong argument, skipped, or a name is not resolved into its own variable")
+    ck.verdict(both_none_ok and any(p.ret == RAISE and truth_of(p.conds, f"{T} is None") is True and truth_of(p.conds, f"{V} is None") is True for p in ps), "C18.c", cm, "tr is None and inv_tr is None -> raise", "the call is refused when both are missing, before anything is computed", "the both-None case is not refused before the metric is computed")
     r2 = repo.func(SM, "r2_score_comparable")
     c = [x for x in own_nodes_incl_lambda(r2.node) if isinstance(x, ast.Call) and src_of(x.func) == "comparable_metric"]
     ok = len(c) == 1 and [src_of(a) for a in c[0].args] == ["r2_score", "y_true", "y_pred"] and {k.arg: src_of(k.value) for k in c[0].keywords} == {"sample_weight": "sample_weight", "multioutput": "multioutput", "tr": "tr", "inv_tr": "inv_tr"}
@@ -232,8 +339,8 @@ WITNESSES = [
     {"name": "minmax-init-zero", "file": _C, "rule": "C18.b", "old": "                        if k == 0:\n                            mini[i, j] = co\n", "new": "                        if k == 1:\n                            mini[i, j] = co\n"},
     {"name": "scale-in-place", "file": _C, "rule": "C18.b", "old": "    df = scale(df)\n", "new": "    df = scale(df, copy=False)\n"},
     {"name": "model-not-cloned", "file": _C, "rule": "C18.b", "old": "                mod = clone(model)\n", "new": "                mod = model\n"},
-    {"name": "clone-per-row", "file": _C, "rule": "C18.b", "old": "            for j in range(cor.shape[1]):\n", "new": "            mod = clone(model)\n            for j in range(cor.shape[1]):\n"},
-    {"name": "test-half-is-train", "file": _C, "rule": "C18.b", "old": "                xj_test = df_test[:, j : j + 1]\n", "new": "                xj_test = df_train[:, j : j + 1]\n"},
+    {"name": "clone-per-row", "file": _C, "rule": "C18.b", "old": "            for j in range(cor.shape[1]):\n                xj_train = df_train[:, j : j + 1]\n                xj_test = df_test[:, j : j + 1]\n                assert (\n                    len(xj_test) > 0 and len(xi_test) > 0\n                ), f\"One column is empty i={i} j={j}.\"\n                mod = clone(model)\n", "new": "            mod = clone(model)\n            for j in range(cor.shape[1]):\n                xj_train = df_train[:, j : j + 1]\n                xj_test = df_test[:, j : j + 1]\n                assert (\n                    len(xj_test) > 0 and len(xi_test) > 0\n                ), f\"One column is empty i={i} j={j}.\"\n"},
+    {"name": "test-half-is-train", "file": _C, "rule": "C18.a", "old": "                xj_test = df_test[:, j : j + 1]\n", "new": "                xj_test = df_train[:, j : j + 1]\n"},
     {"name": "log-is-log1p", "file": _S, "rule": "C18.c", "old": '"log": numpy.log}', "new": '"log": numpy.log1p}'},
     {"name": "tr-on-pred", "file": _S, "rule": "C18.c", "old": "        return metric_function(tr(y_true), y_pred, **kwargs)\n", "new": "        return metric_function(y_true, tr(y_pred), **kwargs)\n"},
     {"name": "both-none-allowed", "file": _S, "rule": "C18.c", "old": "    if tr is None and inv_tr is None:\n        raise ValueError", "new": "    if tr is None and inv_tr is None and kwargs:\n        raise ValueError"},
